@@ -9,6 +9,7 @@ import Irismod.Spec.C12_Service
 import Irismod.Spec.C07
 import Irismod.Spec.C08
 import Irismod.Spec.C13_Service
+import Irismod.Spec.ServiceMon
 
 namespace Driver.Service
 open Irismod Irismod.Sdk Irismod.Service Irismod.Line
@@ -439,6 +440,11 @@ def failLine (prop : String) (clause : String) (cls : String) (line : Nat) : Str
 /-- strip the result word and the callback field: what a rejected message must leave untouched -/
 def obsBody (o : List String) : List String := (o.drop 1).filter (fun x => !(x.startsWith "cb="))
 
+/-- monitor mode: every clause evaluated on an (operation, observation) pair is a function of
+`Irismod.Spec.ServiceMon` (`opLine` / `exportLine` / `reimportLine`, which dispatch to `Spec.C07.check`,
+`Spec.C08.check`, `Spec.C13S.check`, `Spec.C12S.check*`) — the functions the theorems of
+`Irismod/Proofs/ServiceMonitor.lean` prove sound with respect to the model; only parsing and the
+reset line's self-check stay here -/
 def runMonitor (prop : String) (ops obs : Array String) : IO Unit := do
   let out ← IO.getStdout
   if ops.size ≠ obs.size then
@@ -448,9 +454,7 @@ def runMonitor (prop : String) (ops obs : Array String) : IO Unit := do
   let mut ds : List Denom := []
   let mut pre : State := {}
   let mut preTok : List String := []
-  let mut m07 : Spec.C07.Mon := {}
-  let mut m08 : Spec.C08.Mon := {}
-  let mut m13 : Spec.C13S.Mon := {}
+  let mut ms : Spec.ServiceMon.Mons := {}
   let mut fails := 0
   let mut steps := 0
   let mut havePre := false
@@ -464,9 +468,7 @@ def runMonitor (prop : String) (ops obs : Array String) : IO Unit := do
         match parseState s0 o with
         | some s =>
           base := s0; ds := dl; pre := s; preTok := o; havePre := true
-          m07 := {}
-          m08 := {}
-          m13 := {}
+          ms := {}
           -- the reset line's own observation must be what the reset line says
           if showState s0 dl ≠ joinWith " " (o.drop 1) then
             out.putStrLn (failLine prop "reset-state" "" (i+1)); fails := fails + 1
@@ -479,7 +481,7 @@ def runMonitor (prop : String) (ops obs : Array String) : IO Unit := do
           out.putStrLn (failLine prop "no-pre-state" "" (i+1)); fails := fails + 1
         else
           steps := steps + 1
-          for f in Spec.C12S.checkExport pre (arg o "validate" = "ok") do
+          for f in Spec.ServiceMon.exportLine prop pre (arg o "validate" = "ok") do
             out.putStrLn (failLine prop f.clause f.cls (i+1)); fails := fails + 1
     | ["service", "reimport"] | ["service", "prep_reimport"] =>
       let kind := t.getD 1 ""
@@ -489,19 +491,12 @@ def runMonitor (prop : String) (ops obs : Array String) : IO Unit := do
           out.putStrLn (failLine prop "no-pre-state" "" (i+1)); fails := fails + 1
         else
           let accepted := o.head? == some "ok"
-          if !accepted ∧ obsBody o ≠ obsBody preTok then
-            out.putStrLn (failLine prop "rejected-state-unchanged" "" (i+1)); fails := fails + 1
-          if prop = "C12" then
-            steps := steps + 1
-            let fl := if kind = "reimport" then Spec.C12S.checkReimport ds pre post accepted
-                      else Spec.C12S.checkPrepReimport ds pre post accepted
-            for f in fl do
-              out.putStrLn (failLine prop f.clause f.cls (i+1)); fails := fails + 1
-          else if accepted then
-            -- a new chain starts here: the history-long memory of the other monitors does not carry over
-            m07 := {}
-            m08 := {}
-            m13 := {}
+          if prop = "C12" then steps := steps + 1
+          let (ms', fl) := Spec.ServiceMon.reimportLine prop (kind != "reimport") ds ms pre accepted
+            (obsBody o == obsBody preTok) post
+          ms := ms'
+          for f in fl do
+            out.putStrLn (failLine prop f.clause f.cls (i+1)); fails := fails + 1
           pre := post; preTok := o
       | none => out.putStrLn (failLine prop "obs-parse" "" (i+1)); fails := fails + 1
     | _ =>
@@ -511,27 +506,10 @@ def runMonitor (prop : String) (ops obs : Array String) : IO Unit := do
           out.putStrLn (failLine prop "no-pre-state" "" (i+1)); fails := fails + 1
         else
           if prop ≠ "C12" then steps := steps + 1
-          let accepted := o.head? == some "ok"
-          if o.head? == some "panic" then
-            out.putStrLn (failLine prop "panic" "" (i+1)); fails := fails + 1
-          -- a rejected message leaves the whole observed state untouched
-          if !accepted ∧ obsBody o ≠ obsBody preTok then
-            out.putStrLn (failLine prop "rejected-state-unchanged" "" (i+1)); fails := fails + 1
-          if prop = "C07" then
-            let (m', fl) := Spec.C07.check ds m07 pre op accepted post
-            m07 := m'
-            for f in fl do
-              out.putStrLn (failLine prop f.clause f.cls (i+1)); fails := fails + 1
-          if prop = "C08" then
-            let (m', fl) := Spec.C08.check m08 pre op accepted post
-            m08 := m'
-            for f in fl do
-              out.putStrLn (failLine prop f.clause f.cls (i+1)); fails := fails + 1
-          if prop = "C13" then
-            let (m', fl) := Spec.C13S.check m13 pre op accepted post
-            m13 := m'
-            for f in fl do
-              out.putStrLn (failLine prop f.clause f.cls (i+1)); fails := fails + 1
+          let (ms', fl) := Spec.ServiceMon.opLine prop ds ms pre op (o.head?.getD "") (obsBody o == obsBody preTok) post
+          ms := ms'
+          for f in fl do
+            out.putStrLn (failLine prop f.clause f.cls (i+1)); fails := fails + 1
           pre := post; preTok := o
       | _, _ => out.putStrLn (failLine prop "parse" "" (i+1)); fails := fails + 1
   out.putStrLn s!"mon {prop} done steps={steps} fails={fails}"
